@@ -37,6 +37,10 @@ var (
 	_ ast.FuncCallVisitor    = (*ConstFuncParamAnnotator)(nil)
 	_ ast.AssignStmtVisitor  = (*ConstFuncParamAnnotator)(nil)
 	_ ast.ConditionalVisitor = (*ConstFuncParamAnnotator)(nil)
+	_ ast.UnaryExprVisitor   = (*ConstFuncParamAnnotator)(nil)
+	_ ast.BinaryExprVisitor  = (*ConstFuncParamAnnotator)(nil)
+	_ ast.TernaryExprVisitor = (*ConstFuncParamAnnotator)(nil)
+	_ ast.CastExprVisitor    = (*ConstFuncParamAnnotator)(nil)
 )
 
 func (a *ConstFuncParamAnnotator) ShouldVisit(node ast.Node) bool {
@@ -107,25 +111,57 @@ func (a *ConstFuncParamAnnotator) VisitFuncDecl(decl *ast.FuncDecl) ast.VisitRes
 }
 
 func (a *ConstFuncParamAnnotator) VisitFuncCall(call *ast.FuncCall) ast.VisitResult {
+	a.visitCall(call.Func, call.Args)
+	return ast.VisitRecurse
+}
+
+// an overloaded operator is a call of the overloading function
+func (a *ConstFuncParamAnnotator) VisitUnaryExpr(expr *ast.UnaryExpr) ast.VisitResult {
+	if expr.OverloadedBy != nil {
+		a.visitCall(expr.OverloadedBy.Decl, expr.OverloadedBy.Args)
+	}
+	return ast.VisitRecurse
+}
+
+func (a *ConstFuncParamAnnotator) VisitBinaryExpr(expr *ast.BinaryExpr) ast.VisitResult {
+	if expr.OverloadedBy != nil {
+		a.visitCall(expr.OverloadedBy.Decl, expr.OverloadedBy.Args)
+	}
+	return ast.VisitRecurse
+}
+
+func (a *ConstFuncParamAnnotator) VisitTernaryExpr(expr *ast.TernaryExpr) ast.VisitResult {
+	if expr.OverloadedBy != nil {
+		a.visitCall(expr.OverloadedBy.Decl, expr.OverloadedBy.Args)
+	}
+	return ast.VisitRecurse
+}
+
+func (a *ConstFuncParamAnnotator) VisitCastExpr(expr *ast.CastExpr) ast.VisitResult {
+	if expr.OverloadedBy != nil {
+		a.visitCall(expr.OverloadedBy.Decl, expr.OverloadedBy.Args)
+	}
+	return ast.VisitRecurse
+}
+
+func (a *ConstFuncParamAnnotator) visitCall(callee *ast.FuncDecl, args map[string]ast.Expression) {
 	var isConst map[string]bool
-	if attachement, ok := a.CurrentModule.Ast.GetMetadataByKind(call.Func, ConstFuncParamMetaKind); ok {
+	if attachement, ok := a.CurrentModule.Ast.GetMetadataByKind(callee, ConstFuncParamMetaKind); ok {
 		isConst = attachement.(ConstFuncParamMeta).IsConst
 	}
 
 	currentParams := maps.Keys(a.currentParams)
-	for _, param := range call.Func.Parameters {
+	for _, param := range callee.Parameters {
 		if isConst[param.Name.Literal] {
 			continue
 		}
 
-		for _, referencedVar := range doesReferenceVarMutable(call.Args[param.Name.Literal], currentParams) {
+		for _, referencedVar := range doesReferenceVarMutable(args[param.Name.Literal], currentParams) {
 			a.currentParams[referencedVar] = false
 		}
 	}
 
 	a.overwriteAttachement()
-
-	return ast.VisitRecurse
 }
 
 func (a *ConstFuncParamAnnotator) VisitAssignStmt(stmt *ast.AssignStmt) ast.VisitResult {
